@@ -472,6 +472,27 @@ func fnName(fn *ssa.Function) string {
 }
 
 func (m *Machine) callSSA(caller *frame, pos token.Pos, fn *ssa.Function, args []Value, env []Value) Value {
+	// a package initialiser calls the initialisers of the packages it imports: one of those giving up
+	// (loop bound, unsupported construct) must not keep the importer's own variables from being
+	// initialised - each nested initialiser fails on its own, as the top-level one does (runInit)
+	if m.inInit > 0 && caller != nil && fn.Synthetic == "package initializer" && !m.nestedInit[fn] {
+		if m.nestedInit == nil {
+			m.nestedInit = map[*ssa.Function]bool{}
+		}
+		m.nestedInit[fn] = true
+		func() {
+			defer func() {
+				delete(m.nestedInit, fn)
+				if r := recover(); r != nil {
+					if pa, ok := r.(pathAbort); ok && pa.kind == "killed" {
+						panic(r)
+					}
+				}
+			}()
+			m.callSSA(caller, pos, fn, args, env)
+		}()
+		return nil
+	}
 	name := fnName(fn)
 	// a stub written in the harness overrides the engine's own model of the function
 	if len(harnessStubs) > 0 {
